@@ -1,5 +1,16 @@
+use dropshot::*;
+use schemars::JsonSchema;
+use serde::Deserialize;
+#[derive(Deserialize, JsonSchema)]
+/// A plain struct
+struct Plain { name: String }
+async fn h(_r: RequestContext<()>, _b: TypedBody<Option<Plain>>) -> Result<HttpResponseOk<Option<Plain2>>, HttpError> { Ok(HttpResponseOk(None)) }
+#[derive(serde::Serialize, JsonSchema)]
+struct Plain2 { x: u8 }
 fn main() {
-    dropshot::verif::install_memory_sink();
-    dropshot::verif::emit("hello", serde_json::json!({"x": 1}));
-    println!("{:?}", dropshot::verif::take_memory());
+    let mut api = ApiDescription::new();
+    api.register(ApiEndpoint::new("op".into(), h, http::Method::PUT, "application/json", "/t", ApiEndpointVersions::All)).unwrap();
+    let d = api.openapi("t", semver::Version::new(1,0,0)).json().unwrap();
+    println!("{}", serde_json::to_string_pretty(&d["paths"]).unwrap());
+    println!("{}", serde_json::to_string_pretty(&d["components"]).unwrap());
 }
